@@ -42,6 +42,9 @@ struct Net {
     enabled: bool,
     servers: HashMap<SocketAddr, ServerState>,
     policy: Option<Policy>,
+    /// Handler tasks currently running per server, so that removing a server (process death)
+    /// also ends the requests it was still working on, as a closed socket would.
+    inflight: HashMap<SocketAddr, Vec<tokio::task::AbortHandle>>,
 }
 
 thread_local! {
@@ -56,6 +59,7 @@ pub fn enable(on: bool) {
         if !on {
             n.servers.clear();
             n.policy = None;
+            n.inflight.clear();
         }
     })
 }
@@ -70,9 +74,16 @@ pub fn set_policy(p: Option<Policy>) {
     NET.with(|n| n.borrow_mut().policy = p)
 }
 
-/// Removes a server, as if its process had died.
+/// Removes a server, as if its process had died: requests it is still handling are aborted and
+/// their callers see a connection error.
 pub fn unregister(addr: SocketAddr) {
-    NET.with(|n| n.borrow_mut().servers.remove(&addr));
+    NET.with(|n| {
+        let mut n = n.borrow_mut();
+        n.servers.remove(&addr);
+        for handle in n.inflight.remove(&addr).unwrap_or_default() {
+            handle.abort();
+        }
+    });
 }
 
 pub(crate) fn register(addr: SocketAddr, state: ServerState) {
@@ -122,7 +133,14 @@ pub(crate) async fn send(
         let client: SocketAddr = ([127, 0, 0, 1], 0).into();
         // The handler runs in its own task like on a real server, so it completes
         // even if the caller goes away.
-        let resp = tokio::spawn(crate::net::verif_handle(req, state, client))
+        let task = tokio::spawn(crate::net::verif_handle(req, state, client));
+        NET.with(|n| {
+            let mut n = n.borrow_mut();
+            let list = n.inflight.entry(remote_addr).or_default();
+            list.retain(|h| !h.is_finished());
+            list.push(task.abort_handle());
+        });
+        let resp = task
             .await
             .map_err(|e| refused(&format!("verif: handler task failed: {e}")))?;
         last = Some(resp);
